@@ -37,12 +37,14 @@ theorem cont_msgHyp (cfg : Cfg) (m : InMsg) (hm : NoResetIn m) : MsgHyp (fun o =
   onLogon := by intro _ _ _; simp
   ro := Or.inr hm
 
-theorem cont_evOK (e : Ev) (h : NoResetEv e) : EvOK (fun o => o ≠ Obs.reset) StoreMono NoResetIn e := by
+theorem cont_evOK (cfg : Cfg) (hc : cfg.resetSeqTime = none) (e : Ev) (h : NoResetEv e) :
+    EvOK (fun o => o ≠ Obs.reset) StoreMono NoResetIn cfg e := by
   cases e with
   | incomingMsg o => intro x hx; subst hx; exact h
   | arrive m => exact h
   | send m => exact Or.inr h
   | sessionTime a b => exact Or.inl h
+  | resetTime now => exact Or.inr hc
   | _ => trivial
 
 /-- continuity from any state whose buffered / stashed messages negotiate no reset -/
@@ -51,7 +53,8 @@ theorem continuity_run (s : Sess) (evs : List Ev) (hcfg : NoResetOptions s.cfg) 
     (∀ o ∈ _root_.traceOf s evs, o ≠ Obs.reset) ∧ StoreMono s.store (_root_.runEvents s evs).store
       ∧ PoolInv NoResetIn (_root_.runEvents s evs) ∧ (_root_.runEvents s evs).cfg = s.cfg := by
   have := run_good (N := fun o => o ≠ Obs.reset) (S := StoreMono) (P := NoResetIn) s evs
-    (fun m hm => cont_msgHyp s.cfg m hm) (Or.inr hcfg) hpool (fun e he => cont_evOK e (hev e he))
+    (fun m hm => cont_msgHyp s.cfg m hm) (Or.inr hcfg.1) hpool
+    (fun e he => cont_evOK s.cfg hcfg.2 e (hev e he))
   exact ⟨this.1, this.2.1, this.2.2.2, this.2.2.1⟩
 
 /-! ## the reset Logon -/
@@ -70,27 +73,46 @@ theorem logonMsg_mem141 (s : Sess) : (141, "Y") ∈ (logonMsg s true).f := by
 
 theorem logonMsg_kind (s : Sess) (b : Bool) : (logonMsg s b).kind = "A" := rfl
 
-/-- sending a Logon that carries 141=Y: the store is reset first, the Logon is number 1, the next outbound number is 2,
-    `sentReset` is raised -/
-theorem sendLogon_reset (s : Sess) :
-    let reply : OutMsg := { logonMsg s true with seq := 1 }
-    let s' := sendLogonInReplyTo s true
+/-- `dropAndSend` of a Logon that carries 141=Y (`o` is the message as built; `stamp s o` is it with the header filled —
+    tag 369 when EnableLastMsgSeqNumProcessed is on, read BEFORE the reset): the store is reset first, the Logon is
+    number 1, the next outbound number is 2, `sentReset` is raised -/
+theorem dropAndSend_reset (s : Sess) (o : OutMsg) (hkA : o.kind = "A") (h141 : o.f.get? 141 = some "Y") :
+    let reply : OutMsg := { stamp s o with seq := 1 }
+    let s' := dropAndSend s o
     s'.store.sender = 2 ∧ s'.store.target = 1 ∧ s'.store.msgs = (if s.cfg.persist then [(1, reply)] else []) ∧ s'.sentReset = true
     ∧ s'.cfg = s.cfg ∧ s'.st = s.st ∧ s'.hb = s.hb ∧ s'.store.epoch = s.store.epoch + 1
     ∧ (s.out = true → s'.log = .wire reply :: (if s.cfg.persist then .saved 1 "A" (resendable reply) else .incS) :: .reset :: s.log) := by
   intro reply s'
-  have hk : isAdminKind (logonMsg s true).kind = true := by rw [logonMsg_kind]; decide
-  have hr : ((logonMsg s true).kind == "A" && (logonMsg s true).f.get? 141 == some "Y") = true := by
-    rw [logonMsg_141, logonMsg_kind]; decide
+  have hk : isAdminKind (stamp s o).kind = true := by rw [stamp_kind, hkA]; decide
+  have hr : ((stamp s o).kind == "A" && (stamp s o).f.get? 141 == some "Y") = true := by
+    rw [stamp_kind, stamp_f, h141, hkA]; decide
   have : s' = sendQueued ((((s.storeReset.setSentReset true).persistOut 1 reply)).setToSend [reply]) := by
-    show dropAndSend s (logonMsg s true) = _
-    unfold dropAndSend prep
+    show dropAndSend s o = _
+    unfold dropAndSend prep prepCore
     simp only [hk, hr, if_true]
     rfl
   rw [this]
   unfold sendQueued Sess.persistOut
   cases hp : s.cfg.persist <;> cases ho : s.out <;>
-    simp [Sess.setToSend, Sess.emit, Sess.setSentReset, Sess.storeReset, Store.reset, hp, ho, reply, logonMsg_kind]
+    simp [Sess.setToSend, Sess.emit, Sess.setSentReset, Sess.storeReset, Store.reset, hp, ho, reply, hkA]
+
+/-- sending a Logon that carries 141=Y (not in reply to a message): `dropAndSend_reset` for `logonMsg s true` -/
+theorem sendLogon_reset (s : Sess) :
+    let reply : OutMsg := { stamp s (logonMsg s true) with seq := 1 }
+    let s' := sendLogonInReplyTo s true
+    s'.store.sender = 2 ∧ s'.store.target = 1 ∧ s'.store.msgs = (if s.cfg.persist then [(1, reply)] else []) ∧ s'.sentReset = true
+    ∧ s'.cfg = s.cfg ∧ s'.st = s.st ∧ s'.hb = s.hb ∧ s'.store.epoch = s.store.epoch + 1
+    ∧ (s.out = true → s'.log = .wire reply :: (if s.cfg.persist then .saved 1 "A" (resendable reply) else .incS) :: .reset :: s.log) :=
+  dropAndSend_reset s (logonMsg s true) rfl (logonMsg_141 s)
+
+/-- … and in reply to the Logon `m` (the acceptor's answer) -/
+theorem sendLogonRe_reset (s : Sess) (m : InMsg) :
+    let reply : OutMsg := { stamp s ((logonMsg s true).inReplyTo m) with seq := 1 }
+    let s' := sendLogonRe s true m
+    s'.store.sender = 2 ∧ s'.store.target = 1 ∧ s'.store.msgs = (if s.cfg.persist then [(1, reply)] else []) ∧ s'.sentReset = true
+    ∧ s'.cfg = s.cfg ∧ s'.st = s.st ∧ s'.hb = s.hb ∧ s'.store.epoch = s.store.epoch + 1
+    ∧ (s.out = true → s'.log = .wire reply :: (if s.cfg.persist then .saved 1 "A" (resendable reply) else .incS) :: .reset :: s.log) :=
+  dropAndSend_reset s ((logonMsg s true).inReplyTo m) rfl (logonMsg_141 s)
 
 theorem replyBase_frame (s : Sess) (m : InMsg) :
     (replyBase s m).cfg = s.cfg ∧ (replyBase s m).st = s.st ∧ (replyBase s m).store = s.store ∧ (replyBase s m).out = s.out
@@ -107,7 +129,7 @@ theorem logon_reset_received (s : Sess) (m : InMsg) (hi : s.cfg.initiator = fals
     (h5 : (s.cfg.bs == 5 && !m.f.has 1137) = false) (hg : GateMsg s.cfg m) (ht : TimeGate s m)
     (hv : callbackVerdict m = none) (hf : logonResetFlag m = true) (hsr : s.sentReset = false) (h34 : getInt m 34 = .val 1) :
     ∃ base : Sess, base.cfg = s.cfg ∧
-    let reply : OutMsg := { logonMsg base true with seq := 1 }
+    let reply : OutMsg := { stamp base ((logonMsg base true).inReplyTo m) with seq := 1 }
     let r := handleLogon s m
     r.2 = none ∧ r.1.store.sender = 2 ∧ r.1.store.target = 2 ∧ r.1.sentReset = false
     ∧ r.1.store.msgs = (if s.cfg.persist then [(1, reply)] else [])
@@ -133,14 +155,14 @@ theorem logon_reset_received (s : Sess) (m : InMsg) (hi : s.cfg.initiator = fals
     rfl
   -- stage 3: the reply
   have hacc : (!s3.cfg.initiator) = true := by rw [c3, hi]; rfl
-  have e3 : logonReply s3 m (logonResetFlag m) = sendLogonInReplyTo (replyBase s3 m) true := by
+  have e3 : logonReply s3 m (logonResetFlag m) = sendLogonRe (replyBase s3 m) true m := by
     unfold logonReply replyBase
     rw [if_pos hacc, hf]
     cases getInt m 108 <;> rfl
   obtain ⟨b1, b2, b3, b4, b5⟩ := replyBase_frame s3 m
-  obtain ⟨q1, q2, q3, q4, q5, q6, q7, q8, q9⟩ := sendLogon_reset (replyBase s3 m)
-  have hrel := relF_sendLogonInReplyTo (N := fun _ => True) (S := fun _ _ => True) (replyBase s3 m) true (Or.inl triv_resetOK)
-  generalize hs4 : sendLogonInReplyTo (replyBase s3 m) true = s4 at q1 q2 q3 q4 q5 q6 q7 q8 q9 e3 hrel
+  obtain ⟨q1, q2, q3, q4, q5, q6, q7, q8, q9⟩ := sendLogonRe_reset (replyBase s3 m) m
+  have hrel := relF_sendLogonRe (N := fun _ => True) (S := fun _ _ => True) (replyBase s3 m) true m (Or.inl triv_resetOK)
+  generalize hs4 : sendLogonRe (replyBase s3 m) true m = s4 at q1 q2 q3 q4 q5 q6 q7 q8 q9 e3 hrel
   -- stage 4: notification and consuming the Logon's number
   obtain ⟨s5, hs5⟩ : ∃ x, x = ((s4.setSentReset false).emit (.armPeer (1200 * s4.hb))).emit .onLogon := ⟨_, rfl⟩
   have e4 : logonFinish s4 m = (incrTarget s5, none) := by
@@ -284,7 +306,7 @@ theorem reset_on_logout (s : Sess) (m : InMsg) (hcfg : s.cfg.resetOnLogout = tru
   | some r => exact absurd hl (processReject_not_latent s' m r)
   | none =>
     dsimp only at hl ⊢
-    generalize hs2 : (if s'.st.loggedOn = true then sendInReplyTo s' (mkOut "5" []) else s') = s2
+    generalize hs2 : (if s'.st.loggedOn = true then sendInReplyTo s' ((mkOut "5" []).inReplyTo m) else s') = s2
     have h2 : RelF (fun _ => True) (fun _ _ => True) s s2 := by rw [← hs2]; rel_peel
     have : s2.cfg.resetOnLogout = true := by rw [h2.cfg]; exact hcfg
     rw [if_pos this]
@@ -414,22 +436,22 @@ theorem connect_acceptor_store (s : Sess) (hi : s.cfg.initiator = false) (hcfg :
 
 /-- sending a Logon without the reset flag: numbered with the next outbound number, nothing else in the store changes -/
 theorem sendLogon_plain (s : Sess) :
-    let reply : OutMsg := { logonMsg s false with seq := s.store.sender }
+    let reply : OutMsg := { stamp s (logonMsg s false) with seq := s.store.sender }
     let s' := sendLogonInReplyTo s false
     s'.store.sender = s.store.sender + 1 ∧ s'.store.target = s.store.target ∧ s'.store.epoch = s.store.epoch
     ∧ s'.store.msgs = (if s.cfg.persist then (s.store.sender, reply) :: s.store.msgs else s.store.msgs)
     ∧ s'.sentReset = s.sentReset
     ∧ (s.out = true → s'.log = .wire reply :: (if s.cfg.persist then .saved s.store.sender "A" (resendable reply) else .incS) :: s.log) := by
   intro reply s'
-  have hk : isAdminKind (logonMsg s false).kind = true := by rw [logonMsg_kind]; decide
+  have hk : isAdminKind (stamp s (logonMsg s false)).kind = true := by rw [stamp_kind, logonMsg_kind]; decide
   have h141 : (logonMsg s false).f.get? 141 = none := by
     unfold logonMsg mkOut Fields.get?
     simp
-  have hr : ((logonMsg s false).kind == "A" && (logonMsg s false).f.get? 141 == some "Y") = false := by
-    rw [h141]; simp
+  have hr : ((stamp s (logonMsg s false)).kind == "A" && (stamp s (logonMsg s false)).f.get? 141 == some "Y") = false := by
+    rw [stamp_f, h141]; simp
   have : s' = sendQueued ((s.persistOut s.store.sender reply).setToSend [reply]) := by
     show dropAndSend s (logonMsg s false) = _
-    unfold dropAndSend prep
+    unfold dropAndSend prep prepCore
     simp only [hk, hr, if_true, Bool.false_eq_true, if_false]
     rfl
   rw [this]
@@ -447,7 +469,10 @@ theorem sendQueued_store (s : Sess) : (sendQueued s).store = s.store := by
   unfold sendQueued; split <;> rfl
 
 theorem prep_target (s : Sess) (m : OutMsg) (h : resetLogon m = false) : (prep s m).2.store.target = s.store.target := by
+  have h : resetLogon (stamp s m) = false := by rw [resetLogon_stamp]; exact h
   unfold prep
+  generalize stamp s m = m at h
+  unfold prepCore
   simp only []
   split
   · split
@@ -457,20 +482,76 @@ theorem prep_target (s : Sess) (m : OutMsg) (h : resetLogon m = false) : (prep s
     · rfl
     · exact persistOut_target _ _ _
 
-theorem sendInReplyTo_target (s : Sess) (m : OutMsg) (h : resetLogon m = false) : (sendInReplyTo s m).store.target = s.store.target := by
+theorem queueForSend_target (s : Sess) (m : OutMsg) (h : resetLogon m = false) : (queueForSend s m).store.target = s.store.target := by
   have hp := prep_target s m h
-  unfold sendInReplyTo queueForSend
+  unfold queueForSend
   generalize prep s m = r at hp
   obtain ⟨o, s'⟩ := r
-  cases o with
-  | none => split <;> exact hp
-  | some m' =>
-    split
-    · exact hp
-    · show (sendQueued _).store.target = _
+  cases o <;> exact hp
+
+theorem sendInReplyTo_target (s : Sess) (m : OutMsg) (h : resetLogon m = false) : (sendInReplyTo s m).store.target = s.store.target := by
+  unfold sendInReplyTo
+  split
+  · exact queueForSend_target s _ (by rw [resetLogon_asNew]; exact h)
+  · have hp := prep_target s m h
+    generalize prep s m = r at hp
+    obtain ⟨o, s'⟩ := r
+    cases o with
+    | none => exact hp
+    | some m' =>
+      show (sendQueued _).store.target = _
       rw [sendQueued_store]; exact hp
 
 theorem doReject_target (s : Sess) (m : InMsg) (r : Nat) (t : Option Nat) (b : Bool) : (doReject s m r t b).store.target = s.store.target :=
   sendInReplyTo_target s _ (resetLogon_rejectMsg _ _ _ _ _)
+
+/-! ## ResetSeqTime (CheckResetTime) -/
+
+/-- the crossing test, as arithmetic: today's reset instant lies in (last check, now] -/
+theorem crossedReset_iff (rs : Nat) (last now : Int) :
+    crossedReset rs last now = true ↔ last < resetInstant rs now ∧ resetInstant rs now ≤ now := by
+  unfold crossedReset
+  simp
+
+/-- today's reset instant is the configured second of the (UTC) day `now` lies in -/
+theorem resetInstant_day (rs : Nat) (now : Int) (h : rs < 86400) :
+    resetInstant rs now / 86400 = now / 86400 ∧ resetInstant rs now % 86400 = rs := by
+  unfold resetInstant
+  omega
+
+/-- the taken branch of CheckResetTime -/
+theorem checkResetTime_crossed (s : Sess) (now last : Int) (rs : Nat) (hrs : s.cfg.resetSeqTime = some rs)
+    (hl : s.lastCheckedReset = some last) (hc : s.st.connected = true) (hx : crossedReset rs last now = true) :
+    checkResetTime s now = (sendLogonInReplyTo s true).setLastChecked now := by
+  unfold checkResetTime
+  simp only [hrs, hl, hc, hx, Bool.not_true, Bool.false_eq_true, if_false, if_true]
+
+/-- every other branch: only the clock of the last check may change -/
+theorem checkResetTime_quiet (s : Sess) (now : Int)
+    (h : s.cfg.resetSeqTime = none ∨ s.lastCheckedReset = none ∨ s.st.connected = false
+         ∨ (∀ rs last, s.cfg.resetSeqTime = some rs → s.lastCheckedReset = some last → crossedReset rs last now = false)) :
+    checkResetTime s now = s ∨ checkResetTime s now = s.setLastChecked now := by
+  unfold checkResetTime
+  split
+  · exact Or.inl rfl
+  · rename_i rs hrs
+    split
+    · exact Or.inr rfl
+    · rename_i last hl
+      split
+      · exact Or.inr rfl
+      · rename_i hc
+        rcases h with h | h | h | h
+        · rw [h] at hrs; cases hrs
+        · rw [h] at hl; cases hl
+        · rw [h] at hc; simp at hc
+        · rw [h rs last hrs hl]; exact Or.inr rfl
+
+theorem checkResetTime_records (s : Sess) (now : Int) (rs : Nat) (hrs : s.cfg.resetSeqTime = some rs) :
+    (checkResetTime s now).lastCheckedReset = some now := by
+  unfold checkResetTime
+  simp only [hrs]
+  repeat' split
+  all_goals rfl
 
 end Qfx.Sess
